@@ -57,6 +57,17 @@ package client
 //@   ensures truthful-nil: result == nil ==> ghost.sent == 1 && ghost.sent_err_nil
 //@   ensures frame: wrote_nothing()
 
+// C14: heartbeats are sent without a waiter and therefore own no entry in the table of pending requests;
+// their ids come from the handler's own counter, which overlaps the request ids. Receiving a ping or a
+// pong leaves every pending request alone (k stands for an arbitrary request id).
+//@ func (*clientHeartBeatProcessor).Process
+//@   prop C14
+//@   modifies heap.all
+//@   let cl := getty.gettyRemotingClient
+//@   requires cl != nil && cl.gettyRemoting != nil && cl.gettyRemoting.futures != nil
+//@   let k := some(int32, "k")
+//@   ensures pending-requests-untouched: result == nil && syncmapp(cl.gettyRemoting.futures)[box(k, int32)] == old(syncmapp(cl.gettyRemoting.futures)[box(k, int32)])
+
 // C14: a response completes only the future registered under its own id and removes only that entry.
 //@ func (*clientOnResponseProcessor).Process
 //@   prop C14
